@@ -12,6 +12,8 @@ accepted item.
 
 variable {σ : Type}
 
+namespace Conserve
+
 /-! ## lists over the event table -/
 
 theorem filterMap_range_extend {f f' : Nat → Option Int} {n : Nat} (hold : ∀ i, i < n → f' i = f i) :
@@ -584,3 +586,5 @@ theorem reach_fifo (body : σ → Resume → Burst ℚ σ) (fuel : Nat) (s0 s : 
   unfold FifoEqn
   have hp0 : putItems s0 r = [] := by unfold putItems; rw [grantedPuts_noReq s0 r h0]; rfl
   rw [hp0, gotItems_noReq s0 r h0]; simp
+
+end Conserve
